@@ -78,8 +78,8 @@ ROp == \/ \E a \in Slots, n \in 0..2 : RNew(a, n)
        \/ \E a, b \in Slots : RCopy(a, b)
        \/ \E a \in Slots : RSort(a)
        \/ \E a, b, r \in Slots : RConcat(a, b, r)
-       \/ \E a, r \in Slots, n \in 0..1 : RAddEmpty(a, n, r)
-       \/ \E a, r \in Slots, n \in 0..1 : RRemove(a, n, r)
+       \/ \E a, r \in Slots, n \in 0..2 : RAddEmpty(a, n, r)
+       \/ \E a, r \in Slots, n \in 0..2 : RRemove(a, n, r)
        \/ \E a, b \in Slots, i, j \in 1..MaxBins : RCombine(a, i, b, j)
 RNext == ROp
 
